@@ -11,6 +11,11 @@ from plinio.methods.mps.quant.backends.utils import binary_search
 from plinio.methods.mps.quant.backends.match.nn.conv2d import MATCHConv2d
 from plinio.methods.mps.quant.backends.match.nn.linear import MATCHLinear
 from plinio.methods.mps.quant.backends.maupiti.nn.conv2d import MAUPITIConv2d
+from plinio.methods.mps.quant.backends.maupiti.nn.linear import MAUPITILinear
+from plinio.methods.mps.quant.nn.conv2d import QuantConv2d
+from plinio.methods.mps.quant.nn.linear import QuantLinear
+from plinio.methods.mps.quant.backends.base import integerize_arch, Backend
+from plinio.methods.mps.mps import MPS, get_default_qinfo
 from plinio.methods.mps.quant.quantizers import PACTAct, MinMaxWeight, QuantizerBias, DummyQuantizer
 
 _UTILS = 'plinio.methods.mps.quant.backends.utils'
@@ -183,23 +188,280 @@ def h_maupiti_shared_quantizer(H, wa, wb):
              H.and_(H.lt(H.scalar(lb.scale.flatten()[0]), 2 ** 15), H.ge(H.scalar(lb.shift), 0), H.lt(H.scalar(lb.shift), 32)))
 
 
+_WT = {  # concrete weight tables (cout x cin), chosen with different per-channel maxima so that a channel mix-up of the per-channel scale shows
+    'a': [[0.5, -0.25], [-1.5, 0.75]],
+    'b': [[0.125, 0.0625], [2.0, -0.5]],
+    'c': [[-0.3, 0.9], [0.05, 0.02]],
+}
+_BT = {'a': [0.25, -0.5], 'b': [-0.125, 1.0], 'c': [0.0, 0.3]}
+
+
+def _tol(H, b):
+    """the concrete parts of a harness (weight tables, scales) are computed in float64 by both the interpreter and CPython: two algebraically equal
+    expressions differ by rounding noise, so equalities between differently associated expressions are stated up to 1e-6 (1 + |b|)"""
+    return H.mul(1e-6, H.add(1, H.abs(b)))
+
+
+def _int_layer_cls(kind, backend):
+    if backend == 'match':
+        return MATCHConv2d if kind == 'conv2d' else MATCHLinear
+    return MAUPITIConv2d if kind == 'conv2d' else MAUPITILinear
+
+
+def h_layer_reproduces(H, kind, backend, wt, p_in, p_out, p_w, clip_in, clip_out, last, pad, bias=True, dil=None):
+    """the statement itself, per layer: the integer layer built by the REAL constructor from a fake-quantized layer, fed the integer image of
+    an input, returns the integer image of the fake-quantized output to within one level + |accumulator| x |s_w s_x / s_y - scale / 2^shift|;
+    last layer: output x (s_x s_w) == logits (MATCH), output == logits up to the scale / shift approximation (MAUPITI).
+    Weights / clipping values are concrete tables (bounded in those), the INPUT is symbolic: every integer image in [0, 2^p_in - 1]."""
+    cin, cout = 2, 2
+    if kind == 'conv2d' and dil is not None:
+        # a 2-tap kernel dilated by 2 along spatial axis `dil` (MATCH folds the dilation into a zero-padded kernel)
+        ks, dl = ((2, 1), (2, 1)) if dil == 0 else ((1, 2), (1, 2))
+        lin = nn.Conv2d(cin, cout, ks, dilation=dl, bias=bias)
+        wv = [[[[_WT[wt][o][i] * (1 if t == 0 else -0.5) for b in range(ks[1]) for t in ([a] if dil == 0 else [b])] for a in range(ks[0])] for i in range(cin)] for o in range(cout)]
+    elif kind == 'conv2d':
+        lin = nn.Conv2d(cin, cout, 3 if pad else 1, padding=1 if pad else 0, bias=bias)
+        wv = [[[[_WT[wt][o][i] * (1 if (a, b) == (1, 1) else 0.5 if (a + b) % 2 else -0.25) for b in range(3)] for a in range(3)] for i in range(cin)] for o in range(cout)] \
+            if pad else [[[[_WT[wt][o][i]]] for i in range(cin)] for o in range(cout)]
+    else:
+        lin = nn.Linear(cin, cout, bias=bias)
+        wv = _WT[wt]
+    H.set_(lin.weight, H.const_tensor(wv))
+    if bias:
+        H.set_(lin.bias, H.const_tensor(_BT[wt]))
+    in_q = PACTAct(p_in, init_clip_val=clip_in)
+    out_q = DummyQuantizer(p_out) if last else PACTAct(p_out, init_clip_val=clip_out)
+    w_q = MinMaxWeight(p_w, cout)
+    b_q = QuantizerBias(32, cout) if bias else None
+    fq_layer = (QuantConv2d if kind == 'conv2d' else QuantLinear)(lin, in_q, out_q, w_q, b_q)
+    fq_layer.eval()
+    shape = ((1, cin, 2, 2) if pad else (1, cin, 1, 1)) if kind == 'conv2d' else (1, cin)
+    if dil is not None:
+        shape = (1, cin, 3, 1) if dil == 0 else (1, cin, 1, 3)
+    x_int = H.itensor('x', shape)
+    top_in = 2 ** p_in - 1
+    for e in H.elements(x_int):
+        H.assume(H.and_(e >= 0, e <= top_in))
+    x_int = x_int * 1.0                                 # default floating dtype of the run (float64 natively unless replayed in float32)
+    s_x = in_q.scale
+    y_fq = fq_layer(x_int * s_x)                        # the fake-quantized counterpart on the input whose integer image is x_int
+    layer = _int_layer_cls(kind, backend)(lin, in_q, out_q, w_q, b_q)
+    off_in = 2 ** (p_in - 1) if backend == 'maupiti' else 0
+    off_out = 2 ** (p_out - 1) if backend == 'maupiti' else 0
+    y_int = layer(x_int - off_in)
+    H.observe('y_int', y_int)
+    H.observe('y_fq', y_fq)
+    H.observe('scale', layer.scale)
+    H.observe('shift', layer.shift)
+    vshape = (1, cout, 1, 1) if kind == 'conv2d' else (1, cout)
+    # stored integers within the declared ranges
+    lo_w, hi_w = -(2 ** (p_w - 1)), 2 ** (p_w - 1) - 1
+    H.ensure('int-layer:stored-weights-are-integers-in-the-signed-range',
+             H.and_(*[H.and_(H.is_integer(e), H.ge(e, lo_w), H.le(e, hi_w)) for e in H.elements(layer.weight)]))
+    if kind == 'conv2d':
+        H.ensure('int-layer:kernel-size-attribute-is-the-shape-of-the-stored-kernel', tuple(H.shape(layer.weight)[2:]) == tuple(layer.kernel_size))
+    sbits = 16 if backend == 'maupiti' else 24
+    H.ensure('int-layer:scale-is-a-positive-integer-below-2^(scale_bits-1)',
+             H.and_(*[H.and_(H.is_integer(e), H.ge(e, 1), H.le(e, 2 ** (sbits - 1))) for e in H.elements(layer.scale)]))
+    sh = H.scalar(layer.shift.flatten()[0])
+    H.ensure('int-layer:shift-within-range', H.and_(H.is_integer(sh), H.ge(sh, 0), H.lt(sh, 32 if backend == 'maupiti' else 24)))
+    # accumulator of the integer layer: integer convolution of the integer image + integer bias
+    sc = layer.scale.view(vshape)
+    # where each class keeps the integer bias (read off the constructors): MATCHConv2d / MAUPITIConv2d as last layer in .bias; MATCHLinear as last layer in
+    # .add_bias unscaled; everywhere else .add_bias holds bias x scale
+    if last and kind == 'conv2d' and not bias:
+        int_bias, stored_bias = 0.0, H.const_tensor([0.0])
+    elif last and kind == 'conv2d':
+        int_bias, stored_bias = layer.bias.view(vshape), layer.bias
+    elif last and backend == 'match':
+        int_bias, stored_bias = layer.add_bias.view(vshape), layer.add_bias
+    else:
+        int_bias, stored_bias = layer.add_bias.view(vshape) / sc, layer.add_bias
+    H.ensure('int-layer:stored-bias-is-an-integer-within-32-bits',
+             H.and_(*[H.and_(H.is_integer(e), H.ge(e, -(2 ** 31)), H.le(e, 2 ** 31 - 1)) for e in H.elements(stored_bias)]))
+    if kind == 'conv2d':
+        acc = torch.nn.functional.conv2d(x_int, layer.weight, None, 1, 1 if pad else 0, layer.dilation) + int_bias
+    else:
+        acc = torch.nn.functional.linear(x_int, layer.weight, None) + int_bias
+    s_w = layer.s_w.view(vshape)
+    if last:
+        err = torch.abs(acc) * torch.abs(s_w * s_x - sc / 2 ** layer.shift.flatten()[0])
+        if backend == 'match':
+            H.ensure('last-layer:output-times-input-scale-times-weight-scale-is-the-logits',
+                     H.and_(*[H.le(H.abs(H.sub(a, b)), _tol(H, b)) for a, b in zip(H.elements(y_int * s_x * s_w), H.elements(y_fq))]))
+        else:
+            d = torch.abs(y_int - y_fq)
+            H.ensure('last-layer:output-is-the-logits-up-to-the-scale-shift-approximation',
+                     H.and_(*[H.le(a, H.add(b, _tol(H, c))) for a, b, c in zip(H.elements(d), H.elements(err), H.elements(y_fq))]))
+        return
+    s_y = out_q.scale
+    img = y_fq / s_y
+    for e in H.elements(y_int):
+        H.ensure('int-layer:output-is-an-integer-in-the-declared-activation-range',
+                 H.and_(H.is_integer(e), H.ge(e, -off_out), H.le(e, 2 ** p_out - 1 - off_out)))
+    err = torch.abs(acc) * torch.abs(s_w * s_x / s_y - sc / 2 ** layer.shift.flatten()[0])
+    d = torch.abs(y_int + off_out - img)
+    H.ensure('int-layer:integer-image-of-the-fake-quantized-output-within-one-level-plus-approximation-bound',
+             H.and_(*[H.le(a, H.add(1, b)) for a, b in zip(H.elements(d), H.elements(err))]))
+
+
+class _IntChain(nn.Module):
+    """conv -> relu -> conv -> relu -> flatten -> linear (the shape of the networks the back-end tests integerize)"""
+    def __init__(self):
+        super().__init__()
+        self.c0 = nn.Conv2d(1, 2, 1)
+        self.act0 = nn.ReLU()
+        self.c1 = nn.Conv2d(2, 2, 1)
+        self.act1 = nn.ReLU()
+        self.fc = nn.Linear(2, 2)
+
+    def forward(self, x):
+        y = self.act0(self.c0(x))
+        y = self.act1(self.c1(y))
+        return self.fc(y.flatten(1))
+
+
+def h_integerize_whole(H, backend, p_a, p_w):
+    """integerize_arch on a whole exported MPS model (real MPS(), export(), integerize_arch() - tracing / GraphModule are library contracts):
+    the rewritten graph holds one back-end layer per fake-quantized layer, built from THAT layer's quantizers; the input quantizer is forced
+    to integer output (MATCH) or removed together with the ReLUs (MAUPITI); and each integer layer, fed the integer image of what its
+    fake-quantized counterpart receives inside the network, reproduces the image of the counterpart's output (the statement of C14).
+    Weights concrete, network input symbolic (every integer image)."""
+    user = _IntChain()
+    k = 1
+    for n, p in user.named_parameters():
+        vals = []
+        for i in range(p.numel()):
+            vals.append(((k * 37) % 17 - 8) / 8.0)
+            k += 1
+        H.set_(p, H.const_tensor(vals).reshape(H.shape(p)))
+    mps = MPS(user, input_example=torch.zeros(1, 1, 1, 1), qinfo=get_default_qinfo((p_w,), (p_a,)))
+    mps.eval()
+    q = mps.export()
+    q.eval()
+    x_int = H.int('x')
+    top = 2 ** p_a - 1
+    H.assume(H.and_(x_int >= 0, x_int <= top))
+    inq = q.get_submodule('x_input_quantizer').out_quantizer if hasattr(q.get_submodule('x_input_quantizer'), 'out_quantizer') else q.get_submodule('x_input_quantizer')
+    s_in = inq.scale
+    x = (H.scalar_tensor(x_int).reshape(1, 1, 1, 1) + 0.5) * s_in          # the real input whose integer image is x_int (mid-cell: robust to rounding noise)
+    # the fake-quantized network, layer by layer (what each layer receives and returns)
+    names = ['c0', 'c1', 'fc']
+    fq_in, fq_out = {}, {}
+    t = q.get_submodule('x_input_quantizer')(x)
+    for nme in names:
+        if nme == 'fc':
+            t = t.flatten(1)
+        fq_in[nme] = t
+        t = q.get_submodule(nme)(t)
+        fq_out[nme] = t
+        if nme != 'fc':
+            t = torch.relu(t)
+    y_q = q(x)
+    H.ensure('fake-quantized-network:layer-by-layer-evaluation-is-the-network', H.eq(y_q, fq_out['fc']))
+    scales = {nme: (q.get_submodule(nme).in_quantizer.scale, None if nme == 'fc' else q.get_submodule(nme).out_quantizer.scale) for nme in names}
+    quantizers = {nme: (q.get_submodule(nme).in_quantizer, q.get_submodule(nme).out_quantizer, q.get_submodule(nme).w_quantizer) for nme in names}
+    integer = integerize_arch(q, Backend.MATCH if backend == 'match' else Backend.MAUPITI)
+    H.observe('nodes', [(n.op, str(n.target) if n.op != 'call_function' else n.name, n.name) for n in integer.graph.nodes])
+    mods = dict(integer.named_modules())
+    want = {'c0': _int_layer_cls('conv2d', backend), 'c1': _int_layer_cls('conv2d', backend), 'fc': _int_layer_cls('linear', backend)}
+    H.ensure('integerize:every-fake-quantized-layer-is-replaced-by-the-back-end-layer', all(type(mods[nme]) is want[nme] for nme in names))
+    H.ensure('integerize:back-end-layer-is-built-from-the-quantizers-of-the-layer-it-replaces',
+             all(H.same_object(mods[nme].in_quantizer, quantizers[nme][0]) and H.same_object(mods[nme].out_quantizer, quantizers[nme][1])
+                 and H.same_object(mods[nme].w_quantizer, quantizers[nme][2]) for nme in names))
+    called = [str(n.target) for n in integer.graph.nodes if n.op == 'call_module']
+    relus = [n for n in integer.graph.nodes if (n.op == 'call_module' and isinstance(mods[str(n.target)], nn.ReLU)) or (n.op == 'call_function' and n.target in (torch.relu, torch.nn.functional.relu))]
+    if backend == 'match':
+        H.ensure('integerize:input-quantizer-kept-and-forced-to-integer-output', any('input_quantizer' in c for c in called) and inq.dequantize is False)
+    else:
+        H.ensure('integerize:input-quantizer-and-relus-removed', not any('input_quantizer' in c for c in called) and len(relus) == 0)
+    off = 2 ** (p_a - 1) if backend == 'maupiti' else 0
+    for nme in names:
+        s_i, s_o = scales[nme]
+        layer = mods[nme]
+        img_in = torch.round(fq_in[nme] / s_i) - off
+        y_int = layer(img_in)
+        vshape = (1, 2, 1, 1) if nme != 'fc' else (1, 2)
+        sc = layer.scale.view(vshape)
+        s_w = layer.s_w.view(vshape)
+        if nme == 'fc':
+            if backend == 'match':
+                H.ensure('integerize:last-layer-output-times-scales-is-the-logits',
+                         H.and_(*[H.le(H.abs(H.sub(a, b)), _tol(H, b)) for a, b in zip(H.elements(y_int * s_i * s_w), H.elements(fq_out[nme]))]))
+            else:
+                acc = torch.nn.functional.linear(img_in + off, layer.weight, None) + layer.add_bias.view(vshape) / sc
+                err = torch.abs(acc) * torch.abs(s_w * s_i - sc / 2 ** layer.shift.flatten()[0])
+                d = torch.abs(y_int - fq_out[nme])
+                H.ensure('integerize:last-layer-output-is-the-logits-up-to-the-approximation',
+                         H.and_(*[H.le(a, H.add(b, _tol(H, c))) for a, b, c in zip(H.elements(d), H.elements(err), H.elements(fq_out[nme]))]))
+            continue
+        acc = torch.nn.functional.conv2d(img_in + off, layer.weight, None) + layer.add_bias.view(vshape) / sc
+        err = torch.abs(acc) * torch.abs(s_w * s_i / s_o - sc / 2 ** layer.shift.flatten()[0])
+        d = torch.abs(y_int + off - torch.round(fq_out[nme] / s_o))
+        H.ensure('integerize:each-layer-reproduces-the-integer-image-of-its-counterpart-within-one-level-plus-bound',
+                 H.and_(*[H.le(a, H.add(1, b)) for a, b in zip(H.elements(d), H.elements(err))]))
+    # the integer network as a whole runs on the integer image of the input and returns the logits' image
+    y_i = integer(H.scalar_tensor(x_int).reshape(1, 1, 1, 1) * 1.0 - off if backend == 'maupiti' else x)
+    H.observe('y_int_net', y_i)
+    H.observe('y_q', y_q)
+
+
 PROPERTY = {
     'C14': dict(
         level='other',
-        explanation='the contract-expressible clauses of the integer back ends: binary_search (unbounded, recursive contract), range clauses of '
-                    '_integer_approximation (binary_search used through its contract), dilation padding of weights, floor-based requantisation '
-                    'range of the MATCH forward, definedness of the MATCH constructors with and without bias',
-        not_decided=['integerize_arch (torch.fx graph rewrite)', 'per-layer reproduction of the fake-quantized network to within one level (needs the layer '
-                     'wiring and the shared stateful quantizers)', 'MAUPITI layers for symbolic values: _integer_approximation hard-codes 16 scale bits x 32 shifts, the selection loop forks per shift (2^32 paths) - '
-                     'only a BOUNDED check on concrete values (maupiti-shared-quantizer: two layers sharing a stateful weight quantizer) is run, labelled bounded; zero-point compensation', 'last-layer logits clause'],
-        assumptions=['scale_bit / shift_pos enumerated small for the selection loop of _integer_approximation (each candidate shift forks the path)',
-                     'integer bias magnitude below 2^(32 - scale_bit): otherwise every candidate shift overflows and the selection returns None (torch.tensor(None) raises) - the regime where no valid answer exists is outside the clause'],
+        explanation='the integer back ends under contract: binary_search (unbounded, recursive contract), range clauses of _integer_approximation (binary_search '
+                    'used through its contract, symbolic scales / biases), dilation padding of weights, floor-based requantisation range of the MATCH forward, '
+                    'definedness of the MATCH constructors with and without bias (symbolic weights); the STATEMENT per layer (layer-reproduces): MATCH / MAUPITI '
+                    'conv2d / linear built by the real constructors from a fake-quantized layer return, for EVERY integer input image, the integer image of the '
+                    'fake-quantized output within one level + |accumulator| x |s_w s_x / s_y - scale / 2^shift|, stored weights / bias / scale / shift in the declared '
+                    'ranges, last-layer logits clauses (weights and clipping values from concrete tables); integerize_arch on a whole exported MPS model '
+                    '(integerize-whole: real MPS(), export(), integerize_arch(), remove_relu, remove_inp_quantizer; graph rewrite, quantizer identity per layer, '
+                    'per-layer reproduction inside the network for every input image)',
+        not_decided=['the per-layer statement for ALL weight values: layer-reproduces / integerize-whole take weights and clipping values from concrete tables (the '
+                     'selection loop of _integer_approximation forks per candidate shift: 24 / 32 shifts x channels on symbolic scales); the input is symbolic',
+                     'architectures other than conv-relu-conv-relu-flatten-linear for integerize_arch (sums, pooling, shared quantizers across branches)',
+                     'dilated MATCH convolutions inside layer-reproduces (the axis-1 defect is a known finding of pad-dilation)',
+                     'float32 rounding of the integer arithmetic carried in float tensors (A-real)'],
+        assumptions=['scale_bit / shift_pos enumerated small for the SYMBOLIC selection loop of _integer_approximation (each candidate shift forks the path); the '
+                     'concrete-weight harnesses run the real defaults (24 x 24, MAUPITI 16 x 32)',
+                     'integer bias magnitude below 2^(32 - scale_bit): otherwise every candidate shift overflows and the selection returns None (torch.tensor(None) raises) - the regime where no valid answer exists is outside the clause',
+                     'concrete sub-computations (weight tables, scales) are evaluated in float64 by the interpreter and by CPython alike: equalities between differently '
+                     'associated expressions are stated up to 1e-6 (1 + |value|)',
+                     'MAUPITI offset-signed image of an activation with p bits: level - 2^(p-1)'],
     ),
 }
 
 _B = (True, False)
 _BK = 'plinio/methods/mps/quant/backends/'
 HARNESSES = [
+    dict(name='integerize-whole', bounded='one enumerated architecture (conv-relu-conv-relu-flatten-linear), concrete weights; the network input is symbolic (every integer image)',
+         fn='h_integerize_whole', property=['C14'],
+         functions=[_BK + 'base.py::integerize_arch', _BK + 'base.py::remove_relu', _BK + 'base.py::remove_inp_quantizer', _BK + 'base.py::backend_factory',
+                    _BK + 'base.py::IntegerizationTracer.is_leaf_module', 'plinio/methods/mps/quant/nn/conv2d.py::QuantConv2d.export', 'plinio/methods/mps/quant/nn/linear.py::QuantLinear.export'],
+         quick=[dict(backend=b, p_a=8, p_w=8) for b in ('match', 'maupiti')], thorough=[dict(backend=b, p_a=pa, p_w=pw) for b in ('match', 'maupiti') for pa in (8, 4) for pw in (8, 4)],
+         timeout=240, crosscheck=2),
+    dict(name='layer-reproduces', bounded='weights / clipping values from concrete tables; the input integer image is symbolic (all of [0, 2^p - 1])', fn='h_layer_reproduces', property=['C14'],
+         functions=[_BK + 'match/nn/conv2d.py::MATCHConv2d.__init__', _BK + 'match/nn/conv2d.py::MATCHConv2d.forward', _BK + 'match/nn/linear.py::MATCHLinear.__init__',
+                    _BK + 'match/nn/linear.py::MATCHLinear.forward', _BK + 'maupiti/nn/conv2d.py::MAUPITIConv2d.__init__', _BK + 'maupiti/nn/conv2d.py::MAUPITIConv2d.forward',
+                    _BK + 'maupiti/nn/linear.py::MAUPITILinear.__init__', _BK + 'maupiti/nn/linear.py::MAUPITILinear.forward',
+                    'plinio/methods/mps/quant/nn/conv2d.py::QuantConv2d.forward', 'plinio/methods/mps/quant/nn/linear.py::QuantLinear.forward'],
+         quick=[dict(kind=k, backend=b, wt='a', p_in=8, p_out=8, p_w=8, clip_in=1.0, clip_out=2.0, last=l, pad=False)
+                for k in ('conv2d', 'linear') for b in ('match', 'maupiti') for l in (False, True)]
+         + [dict(kind='conv2d', backend=b, wt='b', p_in=4, p_out=4, p_w=4, clip_in=1.0, clip_out=6.0, last=False, pad=True) for b in ('match', 'maupiti')]
+         + [dict(kind=k, backend='match', wt='c', p_in=4, p_out=8, p_w=8, clip_in=1.0, clip_out=2.0, last=False, pad=False) for k in ('conv2d', 'linear')]
+         + [dict(kind=k, backend=b, wt='b', p_in=8, p_out=8, p_w=8, clip_in=1.0, clip_out=2.0, last=l, pad=False, bias=False)
+            for k in ('conv2d', 'linear') for b in ('match', 'maupiti') for l in (False, True)]
+         + [dict(kind='conv2d', backend=b, wt='a', p_in=8, p_out=8, p_w=8, clip_in=1.0, clip_out=2.0, last=False, pad=False, dil=d) for b in ('match', 'maupiti') for d in (0, 1)],
+         thorough=[dict(kind=k, backend=b, wt=w, p_in=pi, p_out=po, p_w=pw, clip_in=1.0, clip_out=co, last=l, pad=pd)
+                   for k in ('conv2d', 'linear') for b in ('match', 'maupiti') for l in (False, True)
+                   for (w, pi, po, pw, co, pd) in (('a', 8, 8, 8, 2.0, False), ('a', 8, 8, 8, 2.0, True), ('b', 8, 8, 4, 6.0, False), ('c', 4, 8, 8, 2.0, False),
+                                                   ('c', 8, 4, 4, 2.0, False), ('b', 4, 4, 4, 6.0, True), ('c', 2, 2, 2, 2.0, False))
+                   if k == 'conv2d' or not pd]
+         + [dict(kind=k, backend=b, wt=w, p_in=8, p_out=8, p_w=8, clip_in=1.0, clip_out=2.0, last=l, pad=pd, bias=False)
+            for k in ('conv2d', 'linear') for b in ('match', 'maupiti') for l in (False, True) for w in ('a', 'b') for pd in (False, True) if k == 'conv2d' or not pd]
+         + [dict(kind='conv2d', backend=b, wt=w, p_in=8, p_out=pq, p_w=pq, clip_in=1.0, clip_out=2.0, last=l, pad=False, bias=bs, dil=d)
+            for b in ('match', 'maupiti') for d in (0, 1) for w in ('a', 'c') for pq in (8, 4) for l in (False, True) for bs in (True, False)],
+         timeout=120, crosscheck=2),
     dict(name='maupiti-shared-quantizer', bounded='concrete values (two weight magnitudes per configuration), not symbolic', fn='h_maupiti_shared_quantizer', property=['C14'], functions=[_BK + 'maupiti/nn/conv2d.py::MAUPITIConv2d.__init__', _BK + 'maupiti/nn/conv2d.py::MAUPITIConv2d._integer_approximation'],
          quick=[dict(wa=4.0, wb=0.5), dict(wa=0.25, wb=2.0)], thorough=[dict(wa=a, wb=b) for a in (4.0, 0.25, 1.0) for b in (0.5, 2.0, 1.0)], timeout=60, crosscheck=1),
     dict(name='binary-search', fn='h_binary_search', property=['C14'], functions=[_BK + 'utils.py::binary_search'],
